@@ -18,6 +18,9 @@ mod force_sync;
 mod metrics;
 mod notify;
 
+#[cfg(pendulum_project_ntpd_rs_verif)]
+pub use daemon::verif;
+
 pub use ctl::main as ctl_main;
 pub use daemon::main as daemon_main;
 pub use metrics::exporter::main as metrics_exporter_main;
